@@ -4,6 +4,7 @@ CONSTANTS NObjMax = 2
  NGnd = 2
  HasGround = TRUE
  MaxTag = 3
+ MaxCurves = 0
 INIT Init
 NEXT Next
 INVARIANT CountFormula
